@@ -511,6 +511,11 @@ def r15(ctx: Ctx) -> RuleReport:
                                   'POP is compared by identity/equality: a POP that went through copy.deepcopy or pickling '
                                   '(multiprocessing) is a different object and would not be recognised')
             for n in walk_local(fi.node):
+                if isinstance(n, ast.Call) and isinstance(n.func, ast.Attribute) and n.func.attr in ('count', 'index', 'remove') \
+                        and any(is_pop(a) for a in n.args):
+                    rep.violation(f'{fi.module.name}:{fi.qualname}: {norm(n)}', fi.loc(n),
+                                  f'list.{n.func.attr}(POP) compares with ==, which for Pop is identity: a POP that was copied or '
+                                  f'unpickled (deepcopy, multiprocessing, g | h) is not recognised')
                 if isinstance(n, ast.Call) and isinstance(n.func, ast.Name) and n.func.id == 'isinstance' and len(n.args) == 2:
                     cls = n.args[1]
                     names = [cls] + (list(cls.elts) if isinstance(cls, ast.Tuple) else [])
